@@ -39,6 +39,28 @@ KEY_DECL = {"name": xdm.cps("kt"), "match": bin_("|", bin_("|", path([step("chil
             "use": fn("string", path([step("self", T_NODE)]))}
 
 
+MC_TABLES = os.path.join(ROOT, "spec/mc/MC_PatternTables.tla")
+
+
+def mc_tables(res, tier, wd):
+    """PatternTablesImpl (how a module files its rules per node kind / name and the two lookup loops of findTemplate) returns the
+    rule XSLT 5.5 defines for every set of alternatives, node and admissible match relation within the bounds; with the repair of
+    the id() / key() filing switched off the counterexample must come back."""
+    from concurrent.futures import ThreadPoolExecutor
+    cfg = os.path.join(wd, "pt.cfg")
+    open(cfg, "w").write("SPECIFICATION Spec\nCONSTANTS MaxEntries = %d\n Repaired = TRUE\nINVARIANT LookupIsDefinition\n" % (2 if tier == "quick" else 3))
+    cfg2 = os.path.join(wd, "pt-unrepaired.cfg")
+    open(cfg2, "w").write("SPECIFICATION Spec\nCONSTANTS MaxEntries = 2\n Repaired = FALSE\nINVARIANT LookupIsDefinition\n")
+    with ThreadPoolExecutor(max_workers=2) as ex:
+        f1 = ex.submit(vlib.tlc_mc, MC_TABLES, cfg, name="c10pt", timeout=3000, workers=8, extra=["-noGenerateSpecTE"])
+        f2 = ex.submit(vlib.tlc, MC_TABLES, cfg2, workers=2, name="c10ptw", timeout=1500, extra=["-noGenerateSpecTE"])
+        r, r2 = f1.result(), f2.result()
+    res.add_mc(r, "MC_PatternTables (PatternTablesImpl: filing per node kind / name, quiet and conflict-reporting lookup = XSLT 5.5, every entry set / node / match relation)")
+    if "Invariant LookupIsDefinition is violated" not in r2["out"]:
+        raise vlib.Infra("MC_PatternTables with Repaired = FALSE no longer finds the filing counterexample:\n" + r2["out"][-1500:])
+    res.notes["pattern_tables_model_finds_the_unrepaired_defect"] = True
+
+
 PRIOS = [None, None, None, -8, 0, 4, 8, -2, 2, 16]        # eighths
 
 
@@ -248,6 +270,7 @@ def run(res, tier, seed):
     quick = tier == "quick"
     wd = vlib.workdir("c10-%d" % os.getpid())
     c02.mc_laws(res, tier, wd)
+    mc_tables(res, tier, wd)
     docs = c02.make_docs(rng, 3 if quick else 20)
     # b with and without a parent a, with and without @x, first and later b, text and comment: the document of the targeted family
     docs.append(xdm.R(xdm.E("c", xdm.E("a", xdm.E("b"), xdm.E("a", xdm.E("b", a=[xdm.A("x", "1")]), a=[xdm.A("x", "1")]), xdm.T("t")),
